@@ -567,11 +567,11 @@ def _inf_aware(op, swapped):
             ainf = ta is float and math.isinf(a)
             binf = tb is float and math.isinf(b)
         if binf and not ainf and (ta is not float or a == a):
-            if ta is RealT or _is_symbolic(a) or ta is int or ta is float or ta is bool:
+            if ta is RealT or _pykind(a) in 'ib' or ta is float:
                 return {'lt': b > 0, 'le': b > 0, 'gt': b < 0, 'ge': b < 0, 'eq': False,
                         'ne': True}[op]
         if ainf and not binf and (tb is not float or b == b):
-            if tb is RealT or _is_symbolic(b) or tb is int or tb is float or tb is bool:
+            if tb is RealT or _pykind(b) in 'ib' or tb is float:
                 return {'lt': a < 0, 'le': a < 0, 'gt': a > 0, 'ge': a > 0, 'eq': False,
                         'ne': True}[op]
         return swapped(a, b)
@@ -671,8 +671,15 @@ class ndarray(object):
         self._dtype = dt
         self.flags = _Flags(owndata=base is None)
         self.base = base
-        if finalize:
-            self.__array_finalize__(template)
+        if finalize and cls is not ndarray:
+            if template is not None and template.__dict__.get('_vf_untraced_hooks'):
+                # the harness vouches that this sample's metadata is concrete: the hook
+                # (FlowCal code) then runs at native speed with identical semantics
+                with ch.NoTracing():
+                    self.__array_finalize__(template)
+                self._vf_untraced_hooks = True
+            else:
+                self.__array_finalize__(template)
         return self
 
     @classmethod
@@ -759,7 +766,16 @@ class ndarray(object):
     def tolist(self):
         if not self._shape:
             return self._buf[self._off]
-        return [x.tolist() if isinstance(x, ndarray) else _bare(x) for x in self]
+        with ch.NoTracing():
+            el = self._elems()
+            shape = self._shape
+
+            def nest(lo, dims):
+                if len(dims) == 1:
+                    return el[lo:lo + dims[0]]
+                step = _prod(dims[1:])
+                return [nest(lo + i * step, dims[1:]) for i in range(dims[0])]
+            return nest(0, shape)
 
     def item(self, *args):
         if self.size != 1:
@@ -949,8 +965,8 @@ class ndarray(object):
             elif it[0] == 'arr':
                 a = it[1]
                 n = self._shape[d]
-                flat = [self._norm_index(_bare(e), n, d) for e in a._elems()]
-                parts.append(('adv', ndarray._from_flat(flat, a.shape, INT64), d))
+                parts.append(('adv', ndarray._from_flat([_bare(e) for e in a._elems()], a.shape,
+                                                        INT64), d, 'raw'))
                 d += 1
             else:  # mask
                 m = it[1]
@@ -966,9 +982,27 @@ class ndarray(object):
         contiguous = adv_pos == list(range(adv_pos[0], adv_pos[-1] + 1))
         bshape = ()
         for i in adv_pos:
-            bshape = _broadcast_shapes(bshape, parts[i][1].shape)
-        adv_arrays = [(_broadcast_to(parts[i][1], bshape)._elems(), parts[i][2]) for i in adv_pos]
+            try:
+                bshape = _broadcast_shapes(bshape, parts[i][1].shape)
+            except ValueError:
+                raise IndexError('shape mismatch: indexing arrays could not be broadcast '
+                                 'together')
         nb = _prod(bshape)
+        adv_arrays = []
+        for i in adv_pos:
+            el = _broadcast_to(parts[i][1], bshape)._elems()
+            dim = parts[i][2]
+            if len(parts[i]) > 3 and nb > 0:
+                # NumPy checks index-array bounds only while iterating the broadcast result
+                memo = {}
+                el2 = []
+                for e_ in el:
+                    k_ = id(e_)
+                    if k_ not in memo:
+                        memo[k_] = self._norm_index(e_, self._shape[dim], dim)
+                    el2.append(memo[k_])
+                el = el2
+            adv_arrays.append((el, dim))
         # base positions for broadcast index tuples
         bpos = []
         for j in range(nb):
@@ -1007,24 +1041,32 @@ class ndarray(object):
         if j < 0 or j >= n:
             raise IndexError('index %s is out of bounds for axis %d with size %d'
                              % (ch.realize(i) if False else '?', axis, n))
-        return ch.realize(j)      # concretise (CrossHair forks per value)
+        return ch.pick(j, 0, n)      # concretise (CrossHair forks per value)
+
+    def _scalar_key(self, key):
+        kk = key if isinstance(key, tuple) else (key,)
+        if kk == ():
+            return self.ndim == 0
+        for k in kk:
+            if not _is_int_like(k):
+                return False
+        return len(kk) == self.ndim
 
     def __getitem__(self, key):
         if isinstance(key, str):
             raise IndexError('only integers, slices (`:`), ellipsis (`...`), numpy.newaxis '
                              '(`None`) and integer or boolean arrays are valid indices')
-        res = self._parse_key(key)
+        if ch.concrete(key):
+            with ch.NoTracing():
+                res = self._parse_key(key)
+                scalar = res[0] == 'basic' and self._scalar_key(key)
+        else:
+            res = self._parse_key(key)
+            scalar = res[0] == 'basic' and self._scalar_key(key)
         cls = builtins.type(self)
         if res[0] == 'basic':
             _, off, shape, strides = res
-            is_scalar_key = True
-            kk = key if isinstance(key, tuple) else (key,)
-            for k in kk:
-                if not _is_int_like(k):
-                    is_scalar_key = False
-            if is_scalar_key and len(kk) == self.ndim and kk != ():
-                return _mk_scalar(self._buf[off], self._dtype)
-            if key == () and self.ndim == 0:
+            if scalar:
                 return _mk_scalar(self._buf[off], self._dtype)
             r = cls._make(self._buf, off, shape, strides, self._dtype,
                           base=self if self.base is None else self.base, template=self)
@@ -1040,7 +1082,11 @@ class ndarray(object):
         if isinstance(key, str):
             raise IndexError('only integers, slices (`:`), ellipsis (`...`), numpy.newaxis '
                              '(`None`) and integer or boolean arrays are valid indices')
-        res = self._parse_key(key)
+        if ch.concrete(key):
+            with ch.NoTracing():
+                res = self._parse_key(key)
+        else:
+            res = self._parse_key(key)
         if res[0] == 'basic':
             _, off, shape, strides = res
             tgt = ndarray._make(self._buf, off, shape, strides, self._dtype, base=self,
@@ -1344,12 +1390,28 @@ def _scalar_array(v, dt):
 
 
 def _slice_indices(s, n):
-    """slice.indices for possibly symbolic start/stop/step (concretised)."""
-    def conc(x):
+    """slice.indices for possibly symbolic start/stop/step (concretised by forking on
+    comparisons; out-of-range bounds are clamped exactly as slice.indices does)."""
+    def conc(x, lo, hi):
         if x is None:
             return None
-        return operator.index(ch.realize(_bare(x)))
-    return slice(conc(s.start), conc(s.stop), conc(s.step)).indices(n)
+        x = _bare(x)
+        if ch.var_of(x) is None:
+            return operator.index(x)
+        if x < lo:
+            return lo
+        if x >= hi:
+            return hi
+        return ch.pick(x, lo, hi)
+    step = s.step
+    if step is not None:
+        step = _bare(step)
+        if ch.var_of(step) is not None:
+            if step == 0:
+                raise ValueError('slice step cannot be zero')
+            m = n + 1
+            step = conc(step, -m, m)
+    return slice(conc(s.start, -n - 1, n + 1), conc(s.stop, -n - 1, n + 1), step).indices(n)
 
 
 def _range_len(start, stop, step):
